@@ -336,7 +336,7 @@ fn model_buckets(ctx: &mut Ctx, i: &IndexModel, depth: u32) {
 }
 
 pub fn run(ctx: &mut Ctx) {
-    let total = ctx.size(60_000, 3_000_000);
+    let total = ctx.size(120_000, 3_000_000);
     for n in ctx.cases("indexes", total) {
         let mut rng = ctx.begin("indexes", n);
         ctx.eval();
